@@ -12,7 +12,7 @@
                           gap byte) that is not a cluster boundary
    (c) check_rs_cases     RangeScanner ranges against Positions.range_scanner *)
 From Coq Require Import String Ascii.
-From HclV Require Import Base.Prelude Lex.Scanner Lex.Positions Lex.HclLex.
+From HclV Require Import Base.Prelude Gen.TokenTypes Lex.Scanner Lex.Positions Lex.HclLex.
 Open Scope Z_scope.
 Open Scope list_scope.
 
@@ -50,6 +50,25 @@ Definition check_tok_case (c : Z * string * list (Z * Z * Z)) : bool :=
   end.
 Definition check_tok_cases (cs : list (Z * string * list (Z * Z * Z))) : list Z :=
   failing check_tok_case cs.
+
+(* (a') the identOnly scanner, observable only through hclsyntax.ValidIdentifier
+   (public.go:199): `len(tokens) == 2 && tokens[0].Type == TokenIdent &&
+   tokens[1].Type == TokenEOF && len(tokens[0].Bytes) == len(s)` — the scan
+   yields exactly one Ident token and it covers ALL of s (scanTokens skips a
+   leading BOM, so a string starting with one is not an identifier) *)
+Definition model_valid_identifier (s : list Z) : bool :=
+  match hcl_scan MIdentOnly (strip_bom s) with
+  | (its, Done) =>
+      match tokens_of its with
+      | [t; e] => (k_ty t =? Gen.TokenTypes.TokenIdent) && (k_ty e =? Gen.TokenTypes.TokenEOF)
+                  && (zlen (k_bytes t) =? zlen s)
+      | _ => false
+      end
+  | _ => false
+  end.
+Definition check_ident_case (c : string * bool) : bool :=
+  Bool.eqb (model_valid_identifier (unhex (fst c))) (snd c).
+Definition check_ident_cases (cs : list (string * bool)) : list Z := failing check_ident_case cs.
 
 (* ---- (b) positions ------------------------------------------------------------ *)
 
